@@ -364,3 +364,8 @@ def run(ctx, R):
     R.count('R6.2', 1, 1)
     r63(ctx, R)
     r64(ctx, R)
+    from psa import sqlshape
+    n = sqlshape.shape_rule(ctx, R, 'R6.5', [
+        'placement.objects.consumer:_get_consumer_by_uuid',
+        'placement.objects.allocation:_get_allocations_by_consumer_uuid'])
+    R.count('R6.5', n, 2)
